@@ -45,7 +45,10 @@ class ErrorExtraction(object):
                 except:
                     from ._traceback import write_traceback
 
-                    write_traceback(logger)
+                    # Don't run extractors on the extractor's own exception:
+                    # a broken extractor registered for a base class would
+                    # otherwise recurse forever.
+                    write_traceback(logger, _extract_fields=False)
                     return {}
         return {}
 
